@@ -23,6 +23,20 @@ def fairPool (D : Rat) (cap U : Nat) (units amts : List Nat) (total : Nat) : Boo
     decide ((a : Rat) ≤ mkRat u U * D + eps D) &&
     (decide (units.foldl (· + ·) 0 > U) || decide (mkRat u U * D - (n : Rat) * eps D ≤ (a : Rat))))
 
+/-- bucket rewards of one asset: the amounts add up to at most the bucket; nobody gets more than its share
+    of the eligible units + ε; nobody gets less than share − n·ε ("one base unit plus 10⁻¹⁸ of the
+    distributed total for each provider of the pool": the running clamp of fix F26 lets the last providers
+    absorb the rounding of the earlier ones) -/
+def fairBucket (B : Nat) (units amts : List Nat) : Bool :=
+  let n : Nat := units.length
+  let U : Nat := units.foldl (fun a b => a + b) 0
+  decide (amts.length = n) &&
+  (U == 0 ||
+   (decide (amts.foldl (fun a b => a + b) 0 ≤ B) &&
+    (List.zip units amts).all (fun ua =>
+      decide ((Nat.cast ua.2 : Rat) ≤ mkRat ua.1 U * (Nat.cast B : Rat) + eps (Nat.cast B : Rat)) &&
+      decide (mkRat ua.1 U * (Nat.cast B : Rat) - (Nat.cast n : Rat) * eps (Nat.cast B : Rat) ≤ (Nat.cast ua.2 : Rat)))))
+
 /-- depth rewards: pool rewards sum to at most the block distribution; each pool gets at most its
     weighted share + ε and (unless it is the pool that hits the remaining-amount clamp or later)
     at least share − ε − (clamp slack) -/
@@ -63,5 +77,29 @@ def recipientsOK (epoch : Bool) (pre : St) (changes : List (String × String × 
        | some lp => eligible pre lp
        | none => false
      else d = rowan && pre.lps.any (fun e => (e.2.get acct).isSome)))
+
+end Sif.Spec.C18
+
+namespace Sif.Spec.C18
+open Sif Sif.Clp
+
+/-- bucket rewards as paid by one real epoch hook in wallet mode (L1): for every asset with a bucket and
+    eligible providers holding units, each eligible provider's wallet gained its share of the bucket
+    (its units over the units of the eligible providers), to within one base unit plus 10⁻¹⁸ of the
+    bucket per provider of the pool.  `pre` = the state before the hook, `changes` = all
+    (account, denom, before, after) that differ.  Judged only in worlds without blocked recipients. -/
+def epochSharesOK (pre : St) (changes : List (String × String × Nat × Nat)) : Bool :=
+  pre.buckets.all (fun b =>
+    let sym := b.1
+    let B := b.2
+    let lps := (pre.lpsOf sym).filter (fun e => eligible pre e.2)
+    let U : Nat := lps.foldl (fun a e => a + e.2.units) 0
+    let n : Nat := lps.length
+    U == 0 || lps.all (fun e =>
+      let paid : Nat := match changes.find? (fun c => c.1 == e.1 && c.2.1 == sym) with
+                        | some c => c.2.2.2 - c.2.2.1
+                        | none => 0
+      let fair : Rat := mkRat e.2.units U * (Nat.cast B : Rat)
+      decide (fair - (Nat.cast n : Rat) * eps (Nat.cast B : Rat) ≤ (Nat.cast paid : Rat)) && decide ((Nat.cast paid : Rat) ≤ fair + eps (Nat.cast B : Rat))))
 
 end Sif.Spec.C18
